@@ -271,7 +271,7 @@ class BaseDiscretizer(BaseEstimator, TransformerMixin):
 
         return X
 
-    def _prepare_data(self, X: DataFrame, y: Series = None) -> DataFrame:
+    def _check_data(self, X: DataFrame, y: Series = None) -> DataFrame:
         """Validates format and content of X and y.
 
         Parameters
@@ -326,7 +326,32 @@ class BaseDiscretizer(BaseEstimator, TransformerMixin):
 
         return x_copy
 
-    __prepare_data = _prepare_data  # private copy
+    __check_data = _check_data  # private copy (used by transform)
+
+    def _prepare_data(self, X: DataFrame, y: Series = None) -> DataFrame:
+        """Validates format and content of X and y before a fit.
+
+        Parameters
+        ----------
+        X : DataFrame
+            Dataset used to discretize. Needs to have columns has specified in
+            ``BaseDiscretizer.features``, by default None.
+
+        y : Series
+            Binary target feature, by default None.
+
+        Returns
+        -------
+        DataFrame
+            A formatted copy of X
+        """
+        # checking for previous fits of the discretizer before anything is modified
+        assert not self.is_fitted, (
+            " - [Discretizer] This Discretizer has already been fitted. "
+            "Fitting it anew could break established orders. Please initialize a new one."
+        )
+
+        return self.__check_data(X, y)
 
     def _check_new_values(self, X: DataFrame, features: list[str]) -> None:
         """Checks for new, unexpected values, in X
@@ -444,7 +469,7 @@ class BaseDiscretizer(BaseEstimator, TransformerMixin):
         # * If ``copy=True``, the input DataFrame will be copied.
 
         # copying dataframes and casting for multiclass
-        x_copy = self.__prepare_data(X, y)
+        x_copy = self.__check_data(X, y)
 
         # transforming quantitative features
         if len(self.quantitative_features) > 0:
